@@ -23,3 +23,5 @@ open SamVerif.C03
 #print axioms permit_payload_pointer
 #print axioms binding_temps_fresh
 #print axioms bindings_correct_on_temps
+#print axioms bounds_checked_everywhere
+#print axioms bounds_gate
